@@ -542,6 +542,11 @@ class LineInterrupter(object):
   running call at an arbitrary point.  With at=None it only counts (dry run),
   which is how the simulator learns how many crash points a call has."""
 
+  CAP = 60000      # crash points explored per call: the first CAP line events
+
+  class StopCount(BaseException):
+    """Ends a counting dry run once CAP line events have been seen."""
+
   def __init__(self, at=None, exc="KeyboardInterrupt"):
     import os
     from . import REPO
@@ -562,6 +567,8 @@ class LineInterrupter(object):
     if event == "line":
       k = self.n
       self.n += 1
+      if self.at is None and self.n >= self.CAP:
+        raise LineInterrupter.StopCount()
       if self.at is not None and k == self.at and not self.fired:
         self.fired = True
         fn = frame.f_code.co_filename[len(self.root):]
